@@ -119,7 +119,7 @@ func Run(ctx *core.Ctx) {
 		"start-up fail after the values were read (mismatching or non-PEM key material, unparsable PAC, a rejected host/port/scheme after the user:password, " +
 		"duplicate credentials, occupied port). Non-trivial = at least one secret-bearing flag is set and the process served the requests / exited with status 1; " +
 		"distinct = distinct configurations")
-	ctx.Assume("C19: the theorems cover the configuration dump (start-up 'configuration:' lines, /configz), the 'using upstream proxy' line and the two error texts that render a flag value (rejected flag value, --cacert-file without certificate); every other log line, the request log and the error responses are covered by the search on the running binary only")
+	ctx.Assume("C19: the theorems cover the configuration dump (start-up 'configuration:' lines, /configz), the 'using upstream proxy' line, the cert/key attributes of the debug record 'loading TLS certificate' and the two error texts that render a flag value (rejected flag value, --cacert-file without certificate); every other log line, the request log and the error responses are covered by the search on the running binary only")
 	ctx.Assume("C19: the log lines the proxy writes about exchanges that fail because of a fault of the upstream proxy / origin are searched like the start-up log, except the header dumps of --log-http errors for 5xx exchanges (the property covers request log lines of successful exchanges)")
 	ctx.Assume("C19: a secret is searched literally, as base64 (std/url, padded/raw) of the password and of user:password, percent-encoded (query, path, userinfo, all bytes), as Go/JSON string literal, hex, and for data: payloads as fragments and decoded PEM lines; other forms are caught only by the diff of two runs that differ in the secrets alone")
 	ctx.Assume("C19: flag table extracted syntactically (go/ast) from bind/*.go and command/run/*.go of the tree under verification: constructor name and presence of a redactor argument")
